@@ -27,7 +27,9 @@ use shared::{fnv, fnv_bytes, sh, st, st_max, St, NSTATS, STAT_NAMES};
 use std::cell::RefCell;
 use std::sync::atomic::Ordering::Relaxed;
 
-#[global_allocator]
+// under the interpreter its own allocator is used: it honours exactly the requested
+// alignment (malloc would round every box up to 8 or 16) and randomises addresses
+#[cfg_attr(not(miri), global_allocator)]
 static A: alloc::SimAlloc = alloc::SimAlloc;
 
 extern "C" {
